@@ -339,12 +339,12 @@ def _tasks_for(pid, tier):
             return ds("cancel", 1, [v for v in allv if v not in small], jobs=6) + ds("cancel", 2, small, jobs=6)
         return ds("cancel", 2, [v for v in allv if v not in small], jobs=8) + ds("cancel", 3, small, jobs=8)
     if pid == "C17":
-        tiny = [0, 4, 6, 7, 9, 10, 11]
+        tiny = [0, 4, 6, 7, 9, 10, 11, 15]      # 15: dispatch I/O channel closed twice (default schedule only: I/O-only mode)
         rest = [1, 2, 3, 5, 8, 12, 13, 14]     # 13/14: block object + dispatch_block_wait (who consumes the queue's references)
         return ds("life", 3 if q else 4, tiny, jobs=4) + ds("life", 2 if q else 3, rest, jobs=8)
     if pid == "C19":
-        small = [0, 1, 4, 5, 7, 8, 10, 11, 12, 14, 18, 20, 21, 22, 23, 24, 25, 26]     # 25-27: one block object executed twice
-        mid = [2, 3, 6, 9, 13, 15, 16, 19, 27]
+        small = [0, 1, 4, 5, 7, 8, 10, 11, 12, 14, 18, 20, 21, 22, 23, 24, 25, 26, 29, 30]     # 25-27: one block object executed twice; 28-30: cancelled, then submitted synchronously
+        mid = [2, 3, 6, 9, 13, 15, 16, 19, 27, 28]
         return (ds("block", 2 if q else 3, small, jobs=4) + ds("block", 1 if q else 2, mid, jobs=8) +
                 ds("block", 0 if q else 1, [17], jobs=8))
     if pid == "C15":
